@@ -4,6 +4,7 @@ import Gonuts.Props.C01
 import Gonuts.Lemmas.SwapCrash
 import Gonuts.Lemmas.MintCrash
 import Gonuts.Lemmas.MeltPay
+import Gonuts.Lemmas.PollCrash
 /-!
   C07 — mint crash consistency.
 
@@ -174,6 +175,22 @@ theorem melt_pays_only_with_inputs_locked (cx : Cx) (qid : Int) (ps : List Proof
     ∃ id t, insertRows w.db.pending (pendRows (ps.map Proof.row) id) = some t ∧
       w'.db = { w.db with pending := t, meltQ := updMeltQ w.db.meltQ id 0 .pending } :=
   melt_pays_only_when_locked cx qid ps n w w' β e hn hp
+
+/-- A killed or faulted POLL of a melt quote (`GetMeltQuoteState`; the state check runs it for every pending quote) leaves
+    one of exactly six states — nothing; on the succeeded path: pending rows removed, + rows spent, + the quote PAID; on the
+    failed path: the quote UNPAID, + pending rows removed — for every quote, world, interruption point and armed fault
+    (`Lemmas/PollCrash.lean`).  The state "pending rows removed, nothing spent yet" is the unsafe window of
+    `melt_safety_full_false`; there is no other partial state, and signatures, mint quotes and keysets are never touched. -/
+theorem poll_interrupted_states (qid : Int) (n : Nat) (w : World) :
+    let db' := ((getMeltQuoteState qid).run.runN n w).1.db
+    db' = w.db ∨
+    (∃ ys, db' = { w.db with pending := dropPending w.db ys }) ∨
+    (∃ ys rows t, insertRows w.db.spent rows = some t ∧ db' = { w.db with pending := dropPending w.db ys, spent := t }) ∨
+    (∃ ys rows t id pre, insertRows w.db.spent rows = some t ∧
+      db' = { w.db with pending := dropPending w.db ys, spent := t, meltQ := updMeltQ w.db.meltQ id pre .paid }) ∨
+    (∃ id, db' = { w.db with meltQ := updMeltQ w.db.meltQ id 0 .unpaid }) ∨
+    (∃ id ys, db' = { w.db with meltQ := updMeltQ w.db.meltQ id 0 .unpaid, pending := dropPending w.db ys }) :=
+  poll_crash_states qid n w
 
 /-- non-vacuity: in the canonical melt the 7th call is the payment, and at that moment input 7 is locked and the quote PENDING -/
 def meltSess : Sess := (runCEvts (initC 0 false {}) [.seq (.extInvoice 0 8000), .seq (.meltQuote (.inv 0) true none), .script [.succ]]).s
